@@ -401,7 +401,7 @@ def run_harness(h, ovl, tdir, logdir, playback=False, cap_mult=1.0):
             return r, ""
         h.unwindset_resolved = resolved
     # the concrete-playback run keeps the whole trace and needs more memory than the deciding run
-    mem = max(h.mem_gb, 40) if playback else h.mem_gb
+    mem = max(h.mem_gb, 56) if playback else h.mem_gb
     rc, timed_out, wall = run_cmd(kani_cmd(h, tdir, playback), ovl, log, h.cap * cap_mult, mem)
     text = open(log, errors="replace").read()
     r = parse_log(text)
